@@ -1012,6 +1012,27 @@ def rule_R11(ed, src, parts, ordinal, name, ghost=None, plain=False):
     ed.insert(toks[close].start, tail + "} None => break, } ", "R11", "for-loop desugared")
 
 
+def loop_index(blk, src, ls, kth, label):
+    """index into the loop list `ls` of what the template calls loop `kth`: by position in the source,
+    unless the block declares `//@loopkey kth \`tokens\`` -- then it is the one loop of `ls` whose body
+    contains that token sequence (so that swapping the branches that hold the loops does not move the
+    annotations onto the wrong loop)"""
+    toks = src.toks
+    for (n, a, _t) in blk.subs:
+        if n == "loopkey":
+            m = re.match(r"(\d+)\s+`(.*)`\s*$", a)
+            if not m:
+                raise ExtractError("%s: bad //@loopkey argument `%s`" % (label, a))
+            if int(m.group(1)) == kth:
+                hits = [i for i, (k, j) in enumerate(ls) if find_token_seq(src, j + 1, match_close(toks, j), m.group(2))]
+                if len(hits) != 1:
+                    raise ExtractError("lost anchor: %s: loop key `%s` identifies %d loops" % (label, m.group(2), len(hits)))
+                return hits[0]
+    if kth > len(ls):
+        raise ExtractError("lost anchor: %s has %d loops, contract names loop %d" % (label, len(ls), kth))
+    return kth - 1
+
+
 def rule_R14(ed, src, parts, local, hint="", before=""):
     """R14: the implicit drop of the named local at the end of the fn body is made explicit, as Rust's
     drop elaboration does: the tail expression is bound to a fresh local, the local's `drop` (verified
@@ -1350,21 +1371,18 @@ class Unit:
                 bo, bc = parts["body"]
                 ls = loops_in(src, bo + 1, bc)
                 kth = int(arg)
-                if kth > len(ls):
-                    raise ExtractError("lost anchor: %s has %d loops, contract names loop %d" % (label, len(ls), kth))
-                ed.insert(toks[ls[kth - 1][1]].start, "\n" + text + "\n", "A", "loop %d invariant" % kth)
+                li = loop_index(blk, src, ls, kth, label)
+                ed.insert(toks[ls[li][1]].start, "\n" + text + "\n", "A", "loop %d invariant" % kth)
                 n_ann += 1
                 if self.canary:
                     # the invariant (with the loop condition) must be satisfiable
-                    ed.insert(toks[ls[kth - 1][1]].end, "\nproof { assert(false); } // vacuity canary (loop)\n", "A", "canary")
+                    ed.insert(toks[ls[li][1]].end, "\nproof { assert(false); } // vacuity canary (loop)\n", "A", "canary")
                     self.canary_loops += 1
             elif name == "afterloop":
                 bo, bc = parts["body"]
                 ls = loops_in(src, bo + 1, bc)
                 kth = int(arg)
-                if kth > len(ls):
-                    raise ExtractError("lost anchor: %s has %d loops, contract names loop %d" % (label, len(ls), kth))
-                lc = match_close(toks, ls[kth - 1][1])
+                lc = match_close(toks, ls[loop_index(blk, src, ls, kth, label)][1])
                 ed.insert(toks[lc].end, "\n" + text + "\n", "A", "proof hint after loop %d" % kth)
             elif name == "bodyend":
                 # before the last statement / tail expression of the fn body
@@ -1480,16 +1498,20 @@ class Unit:
                 bo, bc = parts["body"]
                 ls = loops_in(src, bo + 1, bc)
                 kth = int(arg)
-                if kth > len(ls):
-                    raise ExtractError("lost anchor: %s has %d loops, contract names loop %d" % (label, len(ls), kth))
-                ed.insert(toks[ls[kth - 1][1]].end, "\n" + text + "\n", "A", "proof hint at start of loop %d body" % kth)
+                ed.insert(toks[ls[loop_index(blk, src, ls, kth, label)][1]].end, "\n" + text + "\n", "A", "proof hint at start of loop %d body" % kth)
             elif name in ("before_stmt", "after_stmt"):
-                m = re.match(r"(\d+)\s+`(.*)`\s*$", arg)
+                m = re.match(r"(\d+)\s+`(.*)`(?:\s+in-loop\s+(\d+))?\s*$", arg)
                 if not m:
                     raise ExtractError("%s: bad //@%s argument `%s`" % (label, name, arg))
                 kth, pat = int(m.group(1)), m.group(2)
                 bo, bc = parts["body"]
-                occ = find_token_seq(src, bo + 1, bc, pat)
+                lo_, hi_ = bo + 1, bc
+                if m.group(3):
+                    # occurrences counted inside the named loop only (see //@loopkey)
+                    ls = loops_in(src, bo + 1, bc)
+                    lj = ls[loop_index(blk, src, ls, int(m.group(3)), label)][1]
+                    lo_, hi_ = lj + 1, match_close(toks, lj)
+                occ = find_token_seq(src, lo_, hi_, pat)
                 if len(occ) > 1:
                     self.report.setdefault("order_sensitive_anchors", []).append("%s: //@%s %s -- pattern occurs %d times in the function" % (label, name, arg, len(occ)))
                 if kth > len(occ):
@@ -1506,9 +1528,10 @@ class Unit:
                 ls = loops_in(src, bo + 1, bc)
                 kth, nm = arg.split()
                 kth = int(kth)
-                if kth > len(ls) or toks[ls[kth - 1][0]].text != "for":
+                li = loop_index(blk, src, ls, kth, label)
+                if toks[ls[li][0]].text != "for":
                     raise ExtractError("lost anchor: %s loop %d is not a for loop" % (label, kth))
-                k = ls[kth - 1][0]
+                k = ls[li][0]
                 while not (toks[k].kind == "ident" and toks[k].text == "in"):
                     k += 1
                 ed.insert(toks[k].end, " %s:" % nm, "A", "ghost name for the loop iterator")
@@ -1558,7 +1581,8 @@ class Unit:
                 elif r == "R14":
                     rule_R14(ed, src, parts, args[1], "\n".join("\n".join(t) for (n2, _a2, t) in blk.subs if n2 == "r14after"), "\n".join("\n".join(t) for (n2, _a2, t) in blk.subs if n2 == "r14before"))
                 elif r == "R11":
-                    rule_R11(ed, src, parts, int(args[1]), args[2] if len(args) > 2 else "verif_it%s" % args[1], args[3] if len(args) > 3 and args[3] != "-" else None, plain=(len(args) > 4 and args[4] == "plain"))
+                    fors_ = [(k, j) for (k, j) in loops_in(src, parts["body"][0] + 1, parts["body"][1]) if toks[k].text == "for"]
+                    rule_R11(ed, src, parts, loop_index(blk, src, fors_, int(args[1]), label) + 1, args[2] if len(args) > 2 else "verif_it%s" % args[1], args[3] if len(args) > 3 and args[3] != "-" else None, plain=(len(args) > 4 and args[4] == "plain"))
                 elif r == "R9":
                     if len(args) > 1 and args[1] == "all":
                         # every `.map(..)` of the body (they are all Meta::map in the function the
@@ -1581,7 +1605,7 @@ class Unit:
                 if not m:
                     raise ExtractError("%s: bad //@closure argument" % label)
                 rule_R7(ed, src, parts, int(m.group(1)), m.group(2), text)
-            elif name in ("subst", "nospinoff", "r4inv", "r4body", "r4after", "r14after", "r14before", "optional", "modelled"):
+            elif name in ("subst", "nospinoff", "r4inv", "r4body", "r4after", "r14after", "r14before", "loopkey", "optional", "modelled"):
                 pass
             elif name == "pubfields":
                 rule_R8(ed, src, a, b)
